@@ -387,3 +387,22 @@ Definition decision_obs (q : list string * option (policy ver3) * nfile ver3) : 
       | _ => [99%N]
       end
   end.
+
+(* summaries for the native-module tie: [refusal (0 none, 1 capability, 2 checksum, 4 version); loaded; registered] *)
+Definition mkpol (caps : list string) (ck : option N) (v : option ver3) : policy ver3 :=
+  {| p_caps := caps; p_checksum := ck; p_version := v |}.
+Definition mkfile (chunks : list (list N)) (v : option ver3) : nfile ver3 := {| f_chunks := chunks; f_version := v |}.
+Definition summary_of (ev : list event) : list N :=
+  [ (if existsb (fun e => match e with ERefusedCap _ => true | _ => false end) ev then 1
+     else if has_event ERefusedChecksum ev then 2
+     else if has_event ERefusedVersion ev then 4 else 0)%N;
+    b2n (has_event ELoaded ev); b2n (has_event ERegistered ev) ].
+Definition route_summary
+  (q : list string * route * option (manifest ver3) * option (manifest ver3) * list string * nfile ver3) : list N :=
+  match q with
+  | (flags, r, project, embedded, path, f) =>
+      match parse_args flags with
+      | POk c _ => summary_of (route_decision ver3 ver3 ver_geb r c project embedded path f)
+      | _ => [99%N]
+      end
+  end.
